@@ -12,7 +12,13 @@ OUT="${MATRIX_OUT:-/tmp/seed_matrix.$$.txt}"
 ALL="C01 C02 C03 C04 C05 C06 C07 C08 C09 C10 C11 C12 C13 C14 C15 C16 C17 C18"
 IDS="${*:-$(ls seeded)}"
 for id in $IDS; do
-  for p in seeded/$id/patch*.diff; do
+  if [ -n "${SEED_ONLY_ROUND:-}" ]; then
+    # only the changes of one seeding round (origin recorded in meta.json)
+    PATCHES=$(python3 -c "import json,sys; m=json.load(open('seeded/$id/meta.json')); print(' '.join('seeded/$id/'+c['patch'] for c in m['changes'] if 'round ${SEED_ONLY_ROUND},' in c.get('origin','')))")
+  else
+    PATCHES=$(ls seeded/$id/patch*.diff)
+  fi
+  for p in $PATCHES; do
     [ -f "$p" ] || continue
     if ! git -C "$REPO_COPY" apply "$PWD/$p" 2>/dev/null; then echo "$id $(basename $p) DOES-NOT-APPLY" | tee -a "$OUT"; continue; fi
     RES=$(./check $id --tier quick 2>/dev/null | grep -E "^VIOLATION" | head -1)
